@@ -10,6 +10,7 @@ C evaluators: verdict/direct (differences empty <=> structurally equal),
 """
 import copy
 import itertools
+import math
 
 from harness import core
 from harness.core import enc_str, enc_val
@@ -82,11 +83,56 @@ def check_flags(c):
     return None
 
 
+def zero_signs_in_items(t, inside=False, out=None):
+    """signs of the float zeros that occur inside the NON-RECORD items of the lists of a tree (at any depth of such an item)"""
+    out = set() if out is None else out
+    if isinstance(t, dict):
+        for v in t.values():
+            zero_signs_in_items(v, inside, out)
+    elif isinstance(t, list):
+        for v in t:
+            zero_signs_in_items(v, inside or not isinstance(v, dict), out)
+    elif inside and isinstance(t, float) and t == 0:
+        out.add(math.copysign(1.0, t))
+    return out
+
+
+def negzero_class(c):
+    """class C07-e: keyed/default compare, and float zeros of BOTH signs occur among (inside) the non-record items of the
+    lists of the two trees (0.0 == -0.0, but their JSON texts - the pairing keys - differ)"""
+    if c.get("mode") != "k":
+        return False
+    return len(zero_signs_in_items(c["a"]) | zero_signs_in_items(c["b"])) == 2
+
+
 def known_class(c, detail=None):
-    return None  # no open finding: C07-b and C07-c are fixed, their inputs are checked like all others
+    # C07-b, C07-c, C07-d are fixed: their inputs are checked like all others
+    if "digits" in c:
+        return "C07-f" if c["digits"] > 4300 else None
+    if negzero_class(c) and (detail is None or "oracle_equal" in detail):
+        return "C07-e"
+    return None
 
 
 def corr_known(c):
+    return None
+
+
+@evaluator("hugeint")
+def check_hugeint(c):
+    """C07 (entry points agree on raising): an int of `digits` digits as a list item; direct_compare returns a verdict,
+    so must compare (class C07-f when the int is beyond the interpreter's int->str limit of 4300 digits).
+    The case holds the number of digits only (the value itself cannot be written into a replay file under the limit)."""
+    n0dict, _, _ = cc.lib()
+    v = 10 ** (c["digits"] - 1)
+    a, b = n0dict.convert_recursively({"a": [v, 1]}), n0dict.convert_recursively({"a": [1, v] if c.get("swap") else [v, 1]})
+    cc.reset_flags()
+    r_d = core.call(a.direct_compare, b) if not c.get("swap") else ("ok", None)
+    r_k = core.call(a.compare, b)
+    if r_d[0] == "ok" and r_k[0] != "ok":
+        return {"direct_compare": "returns", "compare_raises": r_k[1], "digits": c["digits"]}
+    if r_k[0] == "ok" and r_k[1]["differences"]:
+        return {"differences": len(r_k[1]["differences"]), "digits": c["digits"]}
     return None
 
 
@@ -102,7 +148,7 @@ def valid_case(c):
 
 def shrink_failure(evaluator_name, case):
     fn = EVAL.get(evaluator_name.split("/")[0])
-    if fn is None or not valid_case(case):
+    if fn is None or "digits" in case or not valid_case(case):
         return case
     return cc.shrink_case(case, lambda x: valid_case(x) and fn(x) is not None and known_class(x) is None)
 
@@ -182,8 +228,15 @@ def run(ctx):
     for _ in range(n // 2):
         lst = cc.gen_list(rng, 3)
         ck = rng.choice([[], [], rng.sample(cc.KEYS, 1), rng.sample(cc.KEYS, 2), rng.choice(cc.KEYS)])
-        tr = [] if rng.random() < 0.7 else [[rng.choice(["//" + k for k in cc.KEYS] + ["*", ""]), rng.choice(cc.TR_NAMES)]]
+        # patterns are matched against /p[i]/<field> for a key field (fix C10-c) and against /p for an item that is no record
+        tr = [] if rng.random() < 0.6 else [[rng.choice(["//" + k for k in cc.KEYS] + ["p/" + k for k in cc.KEYS[:4]] + ["p[%d]/%s" % (i, k) for i in (0, 1) for k in cc.KEYS[:4]] + ["*", "", "/p"]), rng.choice(cc.TR_NAMES)]]
         kcases.append({"list": lst, "ck": ck, "tr": tr})
+    # records whose key fields hold values of different type with one str(), or texts that imitate the old separators (fix C08-b)
+    for _ in range(n // 10):
+        fields = rng.choice([["id"], ["id", "k"], ["k", "id", "f"]])
+        lst = cc.gen_keyed_list(rng, 1, fields, nested_keyed=False) + [rng.choice([{}, {"v": 1}, 7, "7", None, [["id", 7]], '{"id": 7}'])]
+        tr = [] if rng.random() < 0.6 else [[rng.choice(["//id", "p/id", "p[0]/id", "*/k", "//k"]), rng.choice(cc.TR_NAMES)]]
+        kcases.append({"list": lst, "ck": rng.choice([fields, fields[0], fields + ["id"]]), "tr": tr})
     # JSON text of exotic strings, nested containers and dictionaries whose keys need sorting / escaping
     exotic = ["", '"', "\\", "\n\r\t\b\f", "\x00\x1f\x7f", "\x80\xa0\xff", "\u0100\u2028\uffff", "\U0001f600a", "a\"b\\c", "~ !", "[1, 2]", "null"]
     for i in range(n // 20):
@@ -220,6 +273,49 @@ def run(ctx):
     rrng = ctx.rng("repeat")
     rcases = [dict(c, seed=rrng.randrange(10**9), n=rrng.randrange(1, 3)) for c in (kcases2[: ctx.budget(1000, 14000)] + dcases[: ctx.budget(500, 6000)])]
     ctx.evaluate("repeat", rcases, cc.check_repeat)
+    # ---- fix C07-d on purpose: ints beyond float range that differ, numeric-delta flag on (and off), every walk
+    rng = ctx.rng("bigint")
+    big = [10**400, 10**400 + 1, -(10**400), 10**309, 2**1024, 12345678901234567890, 7]
+    bcases = []
+    for _ in range(n // 20):
+        x, y = rng.choice(big), rng.choice(big)
+        shape = rng.randrange(4)
+        if shape == 0:
+            a, b = {"a": x, "b": 1}, {"a": y, "b": 1}
+        elif shape == 1:
+            a, b = [x, 1], [y, 1]
+        elif shape == 2:
+            a, b = {"r": [{"k": "1", "a": x}]}, {"r": [{"k": "1", "a": y}]}
+        else:
+            a, b = {"r": [[x], 5]}, {"r": [[y], 5]}
+        bcases.append({"mode": rng.choice(["d", "k"]), "setters": [["delta", rng.random() < 0.8]] + cc.gen_setters(rng)[:2], "ck": [], "only": [], "excl": [], "tr": [], "a": a, "b": b, "_kind": "bigint"})
+    ctx.correspond("cmp.run/bigint", bcases, cc.corr_line, cc.corr_impl)
+    ctx.evaluate("verdict/bigint", bcases, check_verdict, in_known=known_class)
+    ctx.evaluate("flags/bigint", bcases, check_flags, in_known=known_class)
+    # ---- floats: both zeros (class C07-e in keyed lists), infinities, nan (nan != nan: a nan leaf always differs)
+    rng = ctx.rng("floats")
+    fpool = [0.0, -0.0, float("inf"), float("-inf"), float("nan"), 1.0, 0, "0.0", 1e308, -1e308]
+    fcases2 = []
+    for _ in range(n // 10):
+        xs = [rng.choice(fpool) for _ in range(rng.choice([1, 2, 3]))]
+        ys = list(xs)
+        rng.shuffle(ys)
+        if rng.random() < 0.5:
+            i = rng.randrange(len(ys))
+            ys[i] = -ys[i] if isinstance(ys[i], float) and rng.random() < 0.6 else rng.choice(fpool)
+        shape = rng.randrange(3)
+        if shape == 0:
+            a, b = {"a": xs}, {"a": ys}
+        elif shape == 1:
+            a, b = {"a": dict(zip("xyz", xs))}, {"a": dict(zip("xyz", ys))}
+        else:
+            a, b = {"a": [xs, {"v": xs[0]}]}, {"a": [{"v": ys[0]}, ys]}
+        fcases2.append({"mode": rng.choice(["d", "k"]), "setters": cc.gen_setters(rng), "ck": [], "only": [], "excl": [], "tr": [], "a": a, "b": b, "_kind": "floats"})
+    ctx.correspond("cmp.run/floats", fcases2, cc.corr_line, cc.corr_impl)
+    ctx.evaluate("verdict/floats", fcases2, check_verdict, in_known=known_class)
+    ctx.evaluate("flags/floats", fcases2, check_flags, in_known=known_class)
+    # ---- class C07-f on purpose: an int beyond the int->str limit as a list item
+    ctx.evaluate("hugeint", [{"digits": d, "swap": s} for d in (400, 4300, 4301, 5000) for s in (False, True)], check_hugeint, in_known=known_class)
     # ---- the classes of the fixed findings C07-b / C07-c are exercised on purpose: values with the same str() and
     # another type, '' next to a record, nested lists holding dictionaries whose keys come in another order
     rng = ctx.rng("collisions")
